@@ -132,6 +132,8 @@ def code_mich(i, rng: random.Random | None = None) -> str:
         return f'{k} {i[1]}'
     if k in ('DIG', 'DUG'):
         return f'{k} {i[1]}'
+    if k in ('PAIRN', 'UNPAIRN', 'GETN', 'UPDATEN'):
+        return f'{k[:-1]} {i[1]}'
     if k == 'PUSH':
         return f'PUSH {ty_mich(i[1])} {data_mich(i[2])}'
     if k == 'DIP':
@@ -156,7 +158,7 @@ def code_coq(i) -> str:
         return out
     if k in NULLARY:
         return 'I_' + k
-    if k in ('DROP', 'DUP', 'DIG', 'DUG'):
+    if k in ('DROP', 'DUP', 'DIG', 'DUG', 'PAIRN', 'UNPAIRN', 'GETN', 'UPDATEN'):
         return f'(I_{k} {cnat(i[1])})'
     if k == 'PUSH':
         return f'(I_PUSH {ty_coq(i[1])} {data_coq(i[2])})'
@@ -281,6 +283,42 @@ def near_data(rng: random.Random, t, d):
     return gen_data(rng, t)
 
 
+def comb_ty(ts):
+    return ts[0] if len(ts) == 1 else ('pair', ts[0], comb_ty(ts[1:]))
+
+
+def spine_len(t) -> int:
+    return 1 + spine_len(t[2]) if t[0] == 'pair' else 1
+
+
+def ty_get_n(k, t):
+    if k == 0:
+        return t
+    if t[0] != 'pair':
+        return None
+    return t[1] if k == 1 else ty_get_n(k - 2, t[2])
+
+
+def ty_update_n(k, x, t):
+    if k == 0:
+        return x
+    if t[0] != 'pair':
+        return None
+    if k == 1:
+        return ('pair', x, t[2])
+    r = ty_update_n(k - 2, x, t[2])
+    return None if r is None else ('pair', t[1], r)
+
+
+def ty_uncomb(n, t):
+    if n == 1:
+        return [t]
+    if t[0] != 'pair':
+        return None
+    r = ty_uncomb(n - 1, t[2])
+    return None if r is None else [t[1]] + r
+
+
 # --------------------------------------------------------------------------------------
 # program generator
 # --------------------------------------------------------------------------------------
@@ -383,6 +421,9 @@ class Gen:
         if len(s) >= 2:
             add(1.0, lambda: ([('SWAP',)], [snd, top] + s[2:]))
             add(1.0, lambda: ([('PAIR',)], [('pair', top, snd)] + s[2:]))
+            add(1.0, lambda: self._pairn(s))
+            if snd[0] == 'pair':
+                add(2.5, lambda: self._updaten(s))
             add(0.4, lambda: self._dropn(s))
             if top == snd and comparable(top):
                 add(2.5, lambda: self._compare(s))
@@ -407,6 +448,8 @@ class Gen:
             k = top[0]
             if k == 'pair':
                 add(2.0, lambda: ([('UNPAIR',)], [top[1], top[2]] + s[1:]))
+                add(1.5, lambda: self._unpairn(s))
+                add(2.5, lambda: self._getn(s))
                 add(1.0, lambda: ([('CAR',)], [top[1]] + s[1:]))
                 add(1.0, lambda: ([('CDR',)], [top[2]] + s[1:]))
             if k == 'option':
@@ -466,6 +509,22 @@ class Gen:
         o = self.rng.choice([0, 0, 1, 2, 3])
         ln = self.rng.choice([0, 1, 1, 2, 3])
         return [('PUSH', T_NAT, ('int', ln)), ('PUSH', T_NAT, ('int', o)), ('SLICE',)], [('option', s[0])] + s[1:]
+
+    def _pairn(self, s):
+        n = self.rng.randrange(2, len(s) + 1)
+        return [('PAIRN', n)], [comb_ty(s[:n])] + s[n:]
+
+    def _unpairn(self, s):
+        n = self.rng.randrange(2, spine_len(s[0]) + 1)
+        return [('UNPAIRN', n)], ty_uncomb(n, s[0]) + s[1:]
+
+    def _getn(self, s):
+        k = self.rng.randrange(0, 2 * spine_len(s[0]) - 1)
+        return [('GETN', k)], [ty_get_n(k, s[0])] + s[1:]
+
+    def _updaten(self, s):
+        k = self.rng.randrange(0, 2 * spine_len(s[1]) - 1)
+        return [('UPDATEN', k)], [ty_update_n(k, s[0], s[1])] + s[2:]
 
     def _nil(self, s):
         t = gen_type(self.rng, 1)
@@ -1067,6 +1126,20 @@ def instr_sweep(rng: random.Random, thorough: bool = False):
         add([(('list', a), gen_data(rng, ('list', a)))], [('IF_CONS', ('SEQ', [('PAIR',), ('SOME',)]), ('SEQ', [('NONE', ('pair', a, ('list', a)))]))])
         add([(('list', a), gen_data(rng, ('list', a)))], [('MAP', ('SEQ', [('DUP', 1), ('PAIR',), ('CAR',)]))])
         add([(('list', a), gen_data(rng, ('list', a)))], [('NIL', a), ('SWAP',), ('ITER', ('SEQ', [('CONS',)]))])
+    # right combs of every width; leaves and the last component may themselves be pairs
+    leaf_types = [T_INT, T_STRING, ('pair', T_NAT, T_BOOL), ('option', T_INT), T_UNIT]
+    for width in range(2, 6):
+        for rep in range(2 if thorough else 1):
+            ts = [rng.choice(leaf_types) for _ in range(width)]
+            t = comb_ty(ts)
+            v = gen_data(rng, t)
+            add([(x, gen_data(rng, x)) for x in ts], [('PAIRN', width)])
+            for n in range(2, spine_len(t) + 1):
+                add([(t, v)], [('UNPAIRN', n)])
+            for k in range(0, 2 * spine_len(t) - 1):
+                add([(t, v)], [('GETN', k)])
+                xt = rng.choice(leaf_types)
+                add([(xt, gen_data(rng, xt)), (t, v)], [('UPDATEN', k)])
     # stack shuffles at every depth, also under a protected prefix (inside DIP k)
     base = [(T_INT, ('int', i)) for i in range(1, 6)]
     for n in range(0, 6):
